@@ -28,6 +28,14 @@ pub struct Msg {
     pub tail: Tail,
 }
 
+/// The leading fields of `Msg`: decoding a message as this leaves its attachments unreferenced (they are dropped with the
+/// opaque message, unconverted).
+#[derive(Serialize, Deserialize)]
+pub struct MsgHead {
+    pub tag: u64,
+    pub pad: Vec<u8>,
+}
+
 pub struct Tail(pub bool);
 
 impl Serialize for Tail {
@@ -221,6 +229,10 @@ impl Agent {
                 let mut per: std::collections::BTreeMap<u64, (Vec<u64>, bool, bool)> = Default::default();
                 let mut seen = 0;
                 let mut intact = true;
+                // "discard": the messages of this drain carry endpoints; only their heads (tag, payload) are decoded -
+                // after the drain - and the attachments are dropped unconverted with the message
+                let discard = op.get("discard").and_then(|b| b.as_bool()).unwrap_or(false);
+                let mut held: Vec<(u64, ipc::OpaqueIpcMessage)> = Vec::new();
                 while seen < want {
                     PROGRESS.fetch_add(1, Ordering::SeqCst);
                     let evs = match set.select() {
@@ -234,6 +246,11 @@ impl Agent {
                                 let e = per.entry(id).or_default();
                                 if e.1 {
                                     e.2 = true; // a message after the closed event
+                                }
+                                if discard {
+                                    // kept undeserialised until the drain is over, then thrown away
+                                    held.push((id, m));
+                                    continue;
                                 }
                                 match m.to::<Msg>() {
                                     Ok(m) => {
@@ -254,6 +271,19 @@ impl Agent {
                                 e.1 = true;
                             },
                         }
+                    }
+                }
+                for (id, m) in held {
+                    let e = per.entry(id).or_default();
+                    match m.to::<MsgHead>() {
+                        Ok(m) => {
+                            let big = m.pad.len() > 3;
+                            if m.pad != payload(m.tag, if big { self.big } else { 3 }) {
+                                intact = false;
+                            }
+                            e.0.push(m.tag);
+                        },
+                        Err(_) => intact = false,
                     }
                 }
                 let evs: Vec<Value> = per
@@ -793,6 +823,10 @@ pub fn run(mode: &str) {
         let fds_before = list_fds().len();
         let maps_before = list_shared_maps().len();
         let lsfd_at = if std::env::var("VERIF_LSFD").is_ok() && id % 7 == 0 { Some(ops.len() / 2) } else { None };
+        // C09/C11 across exec: with "bystander" set, an unrelated long-lived child process is started after every
+        // receipt of a message with attachments; in the ideal model it holds nothing, so no result may change
+        let want_bystanders = b.get("bystander").and_then(|v| v.as_bool()).unwrap_or(false);
+        let mut bystanders: Vec<std::process::Child> = Vec::new();
         let mut a0 = Agent::new();
         let mut a1 = Remote::None;
         if two {
@@ -871,6 +905,32 @@ pub fn run(mode: &str) {
                 verdict = json!({"id": id, "ok": false, "step": i, "op": op, "observed": obs, "why": why});
                 break;
             }
+            if want_bystanders
+                && bystanders.len() < 3
+                && matches!(gets(op, "op"), "recv" | "drain")
+                && gets(op, "res") == "msg"
+                && op.get("slots").and_then(|s| s.as_array()).map(|s| !s.is_empty()).unwrap_or(false)
+            {
+                if let Ok(exe) = std::env::current_exe() {
+                    if let Ok(mut c) = Command::new(exe)
+                        .arg("idle")
+                        .stdin(Stdio::null())
+                        .stdout(Stdio::piped())
+                        .stderr(Stdio::null())
+                        .spawn()
+                    {
+                        // spawn() returns when the child has released the parent's memory, which the kernel does BEFORE
+                        // it closes the child's close-on-exec descriptors: wait for the new program's first output, so
+                        // that what the child still holds afterwards is what it really inherited
+                        if let Some(o) = c.stdout.as_mut() {
+                            use std::io::Read;
+                            let mut one = [0u8; 1];
+                            let _ = o.read(&mut one);
+                        }
+                        bystanders.push(c);
+                    }
+                }
+            }
             for (h, rx) in blockers {
                 match rx.recv_timeout(Duration::from_secs(10)) {
                     Ok((res, hd)) => {
@@ -891,6 +951,11 @@ pub fn run(mode: &str) {
             }
         }
         verdict["woken"] = json!(woken);
+        verdict["bystanders"] = json!(bystanders.len());
+        for mut c in bystanders {
+            let _ = c.kill();
+            let _ = c.wait();
+        }
         drop(a0);
         if let Some(r) = a1_opt.take() {
             r.finish();
